@@ -115,6 +115,45 @@ def run(ctx):
                         "the set the push-down scope tests rely on" % (cname, got, need, v["name"]), where=cf.loc())
         ctx.floor("R5", nv, 8, "expression kinds with sub-expressions")
 
+    # ---- R6 the operator-level collector behind the join-side tests visits every child operator: the push-down into a join
+    # asks "does the predicate use a variable of the left / right input" against collect_output_variables. A child that is
+    # not visited makes the set too small, `uses_left` comes out false, and the predicate is pushed into the other input,
+    # where that variable is unbound (NULL): the optimized plan returns no rows.
+    lo = P.adt("plan::LogicalOperator")
+    oc = P.fn("Optimizer::collect_output_variables_recursive")
+    ox = FlowCx(P, oc)
+    per = {}
+    for bi, t in oc.calls():
+        if callee_name(t) == oc.id:
+            for x in ox.facts_at(bi):
+                if x[0] == "variant" and x[1].endswith("LogicalOperator"):
+                    per[x[2]] = per.get(x[2], 0) + 1
+    # children that are deliberately not part of the output scope
+    SCOPE = {"Aggregate": (1, "an aggregation replaces the scope: only group keys and aggregate aliases leave it"),
+             "AntiJoin": (1, "only the left input's columns survive an anti join"),
+             "Modify": (1, "SPARQL update: produces no bindings"),
+             "InsertTriple": (1, "SPARQL update: produces no bindings"), "DeleteTriple": (1, "SPARQL update: produces no bindings")}
+    nchild = 0
+    for v in lo["variants"]:
+        need = 0
+        for fl in v["fields"]:
+            a = P.adts.get(fl[1])
+            if a:
+                need += sum(1 for ff in a["variants"][0]["fields"] if "LogicalOperator" in ff[1])
+            elif "LogicalOperator" in fl[1]:
+                need += 1
+        if need == 0:
+            continue
+        nchild += 1
+        skip, why = SCOPE.get(v["name"], (0, None))
+        got = per.get(v["name"], 0)
+        ctx.ob("R6", "collect_output_variables#%s" % v["name"], got >= need - skip,
+               what=("exception: " + why) if (why and got >= need - skip) else
+                    "collect_output_variables_recursive visits %d of the %d child operators of LogicalOperator::%s: variables bound "
+                    "below are missing from the set the join-side test uses, and a predicate on them is pushed into the other "
+                    "join input" % (got, need, v["name"]), where=oc.loc())
+    ctx.floor("R6", nchild, 25, "operator kinds with child operators")
+
     # ---- R4 informational
     cj = P.fn("Optimizer::collect_join_tree")
     cjx = FlowCx(P, cj)
